@@ -40,6 +40,20 @@ for tc in ET.parse(j).getroot().iter('testcase'):
         passed.add(tc.get('classname').replace('-', '_') + '::' + tc.get('name'))
 sp = set(json.load(open('/root/.vp/BASELINE.json'))['stable_pass'])
 missing = sorted(sp - passed)
+# load-dependent flakes (e.g. the ordered_merger metrics race): re-run the missing tests alone, up to 3 times
+still = []
+for t in missing:
+    name = t.split('::', 1)[1]
+    ok_once = False
+    for _ in range(3):
+        rc2, out2 = sh(f"cargo test --lib --offline -j 8 {name} -- --exact")
+        if 'test result: ok. 1 passed' in out2:
+            ok_once = True
+            break
+    if not ok_once:
+        still.append(t)
+res['flaky_rerun_passed'] = [t for t in missing if t not in still]
+missing = still
 res['stable_pass_broken'] = missing
 print(json.dumps(res, indent=1))
 ok = res['with_patch'] == 'FAIL' and res['without_patch'] == 'PASS' and not missing
